@@ -847,7 +847,7 @@ PROPS["C13"].update({
                   "once; an attach racing the teardown before the port is registered (refused as being cleaned up); "
                   "forced removal of a dead peer with symbolic role / order; both drop orders of an attached "
                   "sender/receiver pair (not destroyed while the other side is attached, destroyed exactly once by the "
-                  "last detach; 11 min / 23 GB each); forced removal of a dead sender as the last one out after the receiver left (destroyed exactly once; 638 s).  Further slices (second "
+                  "last detach; 11 min / 23 GB each); forced removal of a dead sender as the last one out after the receiver left (destroyed exactly once; 11 min) and of a dead receiver under an attached sender (not destroyed under the survivor, whose detach destroys once; 17 min).  Further slices (second "
                   "attach, single role + re-create, the other mismatching parameters) exist as tier 'extended' and are "
                   "not claimed.",
     "level_note": "one connection, buffer 1 / borrow 1 / 1 chunk / 1 channel; every attach costs ~10 M SAT variables: the "
@@ -899,7 +899,7 @@ c09_uis_history_cap3 c09_uis_history_cap4 c09_robust_history_cap3
 c03_seq_index_queue_cap3 c03_seq_overflow_queue_cap3 c03_seq_spsc_queue_cap3
 c03_s_overflow_cap1_producer_outer c03_s_overflow_cap1_consumer_outer
 c13_q_drop_sender_first c13_q_drop_receiver_first
-c13_q_forced_removal_sender_after_receiver_left
+c13_q_forced_removal_sender_after_receiver_left c13_q_forced_removal_receiver_then_sender_leaves
 """.split())
 for _p in PROPS:
     for _h in PROPS[_p]["harnesses"]:
